@@ -122,9 +122,25 @@ func (r *Runner) fillExpandConfig(ctx context.Context) {
 					close(bg.done)
 				}()
 				verifYield("procsubst:goroutine-start")
+				// Opening a FIFO blocks until the other end is opened too,
+				// which may never happen; do not outlive the context then.
+				opened := make(chan struct{})
+				stopUnblock := context.AfterFunc(ctx, func() {
+					// The open may not have started yet, so keep at it.
+					for {
+						openFifoPeer(path, ps.Op == syntax.CmdOut)
+						select {
+						case <-opened:
+							return
+						case <-time.After(10 * time.Millisecond):
+						}
+					}
+				})
+				defer stopUnblock()
 				switch ps.Op {
 				case syntax.CmdIn:
 					f, err := os.OpenFile(path, os.O_WRONLY, 0)
+					close(opened)
 					if err != nil {
 						r.errf("cannot open fifo for stdout: %v\n", err)
 						return
@@ -138,6 +154,7 @@ func (r *Runner) fillExpandConfig(ctx context.Context) {
 					}()
 				case syntax.CmdOut:
 					f, err := os.OpenFile(path, os.O_RDONLY, 0)
+					close(opened)
 					if err != nil {
 						r.errf("cannot open fifo for stdin: %v\n", err)
 						return
